@@ -49,11 +49,15 @@ func propC02(c *Ctx, r *Report) {
 	r.rule("C02-R8/failure-aborts-block", 8, "executor errors reach the sync root's rollback")
 	{
 		scope := map[*ssa.Function]bool{} // the root's own handling is R2; its two dropped NullifyBurnAddress results are recorded under C10
-		for _, n := range []string{"node.Pegnetd.ApplyTransactionBlock", "node.Pegnetd.ApplyTransactionBatchesInHolding", "node.Pegnetd.recordBatch", "node.Pegnetd.recordPegnetRequests"} {
-			scope[c.fn(n)] = true
+		for _, n := range []string{"node.Pegnetd.ApplyTransactionBlock", "node.Pegnetd.ApplyTransactionBatchesInHolding", "node.Pegnetd.recordBatch", "node.Pegnetd.recordPegnetRequests", "node.multiFetch"} {
+			for _, g := range c.family(c.fn(n)) { // with closures and helpers split off
+				scope[g] = true
+			}
 		}
 		runErrflow(c, computeEffects(c), r, scope, "C02-R8/failure-aborts-block", false)
 	}
+	// R9: what a restarted daemon cannot have is not read: no in-memory state written by an earlier block or attempt
+	ruleNoCarriedReads(c, newSharedAnalysis(c), r, "C02-R9/no-carried-state", c.RSync, carriedAllowedAverages, "block processing")
 	// R4: InsertSynced chain
 	r.rule("C02-R4/height-record", 4, "InsertSynced writes pn_sync_version and pn_metadata on the same tx, errors propagated")
 	is := c.fn("pegnet.Pegnet.InsertSynced")
